@@ -63,7 +63,7 @@ class C20(Prop):
             "a module, a package, both or neither for the collection name, a distractor module of the other name, "
             "an optional sibling directory with its own candidate, and (rarely) a uniquely named candidate in '/'; "
             "every start level incl. the sibling; start given absolute, absolute with trailing slash, or relative "
-            "to a cwd above it; two collection names; sessions: ONE loader object (default or given start) used "
+            "to a cwd above it, or not given at all with tasks.search_root in the configuration; two collection names; sessions: ONE loader object (default or given start) used "
             "in a sequence of (chdir, load | read .start) steps before the judged load, every step compared with "
             "the model.  non-trivial = some candidate exists on disk; "
             "distinct by the whole case")
@@ -122,7 +122,7 @@ class C20(Prop):
             side = rng.choice(["none", "none", "mod", "pkg"]) if depth >= 1 else "none"
             starts = list(range(depth)) + (["side"] if side != "none" else [])
             start = rng.choice(starts)
-            sk = rng.choice(["abs", "abs", "abs", "slash", "rel", "dot", "dotdot", "cwdnone"])
+            sk = rng.choice(["abs", "abs", "abs", "slash", "rel", "dot", "dotdot", "cwdnone", "cfgroot"])
             if rng.random() < 0.03:
                 sk = "missing"
             cwd = 0
@@ -145,7 +145,7 @@ class C20(Prop):
             if rng.random() < 0.15 and not (link and link[0] == "dir"):
                 if rng.random() < 0.8:
                     sk = "cwdnone"
-                elif sk not in ("abs", "cwdnone"):
+                elif sk not in ("abs", "cwdnone", "cfgroot"):
                     sk = "abs"
                 session = [[rng.choice(["load", "load", "start"]), rng.randrange(depth)]
                            for _ in range(rng.choice([1, 1, 2, 3]))]
@@ -167,6 +167,8 @@ class C20(Prop):
                         if link_applicable(kinds, mode, lv):
                             yield mkcase(kinds, 2, link=[mode, lv], distractor=False)
             yield from self._sessions(("none", "mod"), ("load", "start"))
+            for kinds in itertools.product(("none", "mod", "pkg"), repeat=3):
+                yield mkcase(kinds, 2, "cfgroot", distractor=False)
             return
         # depth 4: every layout x every start level, absolute start
         for kinds in itertools.product(KINDS, repeat=5):
@@ -193,7 +195,7 @@ class C20(Prop):
         # package directory, name from the configuration (depth 2)
         for kinds in itertools.product(KINDS6, repeat=3):
             for start in range(3):
-                for sk in ("dot", "dotdot", "cwdnone"):
+                for sk in ("dot", "dotdot", "cwdnone", "cfgroot"):
                     yield mkcase(kinds, start, sk, distractor=False)
                 if "mod" in kinds:
                     yield mkcase(kinds, start, "missing", distractor=False)
@@ -310,7 +312,7 @@ class C20(Prop):
         """the earlier steps actually exercised: only with an absolute or default start, only through
         directories whose path goes through no symlink (os.getcwd() is physical), only existing levels"""
         link = case.get("link")
-        if not case.get("session") or self._kind(case) not in ("abs", "cwdnone") or (link and link[0] == "dir"):
+        if not case.get("session") or self._kind(case) not in ("abs", "cwdnone", "cfgroot") or (link and link[0] == "dir"):
             return []
         return [(op, at) for op, at in case["session"] if 0 <= at < len(case["kinds"])]
 
@@ -348,7 +350,7 @@ class C20(Prop):
                         f.write("WHERE = 'the working directory'\n")
         kind = self._kind(case)
         extra_keys = []
-        if kind in ("abs", "cwdnone"):
+        if kind in ("abs", "cwdnone", "cfgroot"):
             start = sdir
             if kind == "cwdnone":
                 cwd = sdir
@@ -425,7 +427,13 @@ class C20(Prop):
                 cfg = self._cfg
                 if case.get("name_cfg"):
                     cfg = Config(overrides={"tasks": {"collection_name": name}})
-                given_start = None if self._kind(case) == "cwdnone" else start
+                given_start = None if self._kind(case) in ("cwdnone", "cfgroot") else start
+                if self._kind(case) == "cfgroot":
+                    # no start argument: the start comes from the configuration (tasks.search_root)
+                    ov = {"tasks": {"search_root": start}}
+                    if case.get("name_cfg"):
+                        ov["tasks"]["collection_name"] = name
+                    cfg = Config(overrides=ov)
                 loader = FilesystemLoader(start=given_start, config=cfg)
                 for op, at in self._session(case):
                     os.chdir(self._level_dir(at))
@@ -547,7 +555,7 @@ class C20(Prop):
             yield dict(case, distractor=False)
         if case["side"] != "none" and case["start"] != "side":
             yield dict(case, side="none")
-        if case["start_kind"] in ("slash", "dot", "cwdnone", "missing"):
+        if case["start_kind"] in ("slash", "dot", "cwdnone", "missing", "cfgroot"):
             yield dict(case, start_kind="abs")
         for f in ("start_in", "name_cfg"):
             if case.get(f):
@@ -584,7 +592,7 @@ class C20(Prop):
 
     # ------------------------------------------------------------ extra checks
     def extra_checks(self, tier, seed):
-        return [self._siblings(), self._project_path()]
+        return [self._siblings(), self._project_path(), self._load_sessions()]
 
     def _fresh(self):
         top = os.path.join(self.base, "x")
@@ -665,46 +673,121 @@ class C20(Prop):
 
     def _project_path(self):
         from invoke import Program
+        from invoke.config import Config
         fails, n = [], 0
         for kind in ("mod", "linkmod", "linkpkg", "pkg"):
             for start_rel in ("p", "p/q"):
-                top = self._fresh()
-                d = os.path.join(top, "p")
-                open(os.path.join(top, "invoke.yaml"), "w").write("marker: wrong-above\n")
-                open(os.path.join(d, "invoke.yaml"), "w").write("marker: right\n")
-                body = "from invoke import task\n@task\ndef t(c):\n    pass\n"
-                if kind in ("linkmod", "linkpkg"):
-                    os.makedirs(os.path.join(top, "shared"))
-                    open(os.path.join(top, "shared", "invoke.yaml"), "w").write("marker: wrong-link-target\n")
-                if kind == "mod":
-                    open(os.path.join(d, "tasks.py"), "w").write(body)
-                elif kind == "linkmod":
-                    open(os.path.join(top, "shared", "impl_tasks.py"), "w").write(body)
-                    os.symlink(os.path.join(top, "shared", "impl_tasks.py"), os.path.join(d, "tasks.py"))
-                elif kind == "linkpkg":
-                    os.makedirs(os.path.join(top, "shared", "pkgimpl"))
-                    open(os.path.join(top, "shared", "pkgimpl", "__init__.py"), "w").write(body)
-                    os.symlink(os.path.join(top, "shared", "pkgimpl"), os.path.join(d, "tasks"))
-                else:
-                    os.makedirs(os.path.join(d, "tasks"))
-                    open(os.path.join(d, "tasks", "__init__.py"), "w").write(body)
-                    open(os.path.join(d, "tasks", "invoke.yaml"), "w").write("marker: wrong-inside\n")
+                for mode in ("root", "noroot", "relroot", "cfgroot"):
+                    top = self._fresh()
+                    d = os.path.join(top, "p")
+                    open(os.path.join(top, "invoke.yaml"), "w").write("marker: wrong-above\n")
+                    open(os.path.join(d, "invoke.yaml"), "w").write("marker: right\n")
+                    open(os.path.join(d, "q", "invoke.yaml"), "w").write("marker: wrong-working-directory\n")
+                    body = "from invoke import task\n@task\ndef t(c):\n    pass\n"
+                    if kind in ("linkmod", "linkpkg"):
+                        os.makedirs(os.path.join(top, "shared"))
+                        open(os.path.join(top, "shared", "invoke.yaml"), "w").write("marker: wrong-link-target\n")
+                    if kind == "mod":
+                        open(os.path.join(d, "tasks.py"), "w").write(body)
+                    elif kind == "linkmod":
+                        open(os.path.join(top, "shared", "impl_tasks.py"), "w").write(body)
+                        os.symlink(os.path.join(top, "shared", "impl_tasks.py"), os.path.join(d, "tasks.py"))
+                    elif kind == "linkpkg":
+                        os.makedirs(os.path.join(top, "shared", "pkgimpl"))
+                        open(os.path.join(top, "shared", "pkgimpl", "__init__.py"), "w").write(body)
+                        os.symlink(os.path.join(top, "shared", "pkgimpl"), os.path.join(d, "tasks"))
+                    else:
+                        os.makedirs(os.path.join(d, "tasks"))
+                        open(os.path.join(d, "tasks", "__init__.py"), "w").write(body)
+                        open(os.path.join(d, "tasks", "invoke.yaml"), "w").write("marker: wrong-inside\n")
+                    start_abs = os.path.join(top, start_rel)
+                    prefix = os.path.join(top, "userconf.")
 
-                def go():
-                    p = Program()
-                    p.create_config()
-                    p.parse_core(["inv", "--search-root", os.path.join(top, start_rel), "--list"])
-                    p.load_collection()
-                    return p.config._project_path, p.config._project.get("marker")
-                n += 1
-                try:
-                    path, marker = self._isolated(go)
-                    if path != os.path.join(d, "invoke.yaml") or marker != "right":
-                        fails.append({"case": {"kind": kind, "start": start_rel}, "what": [path, marker]})
-                except Exception as e:  # noqa
-                    fails.append({"case": {"kind": kind, "start": start_rel}, "what": repr(e)})
+                    class UserConf(Config):
+                        def __init__(self, *a, **kw):
+                            kw.setdefault("user_prefix", prefix)
+                            super().__init__(*a, **kw)
+
+                    def go():
+                        argv = ["inv", "--list"]
+                        p = Program()
+                        if mode == "root":
+                            argv = ["inv", "--search-root", start_abs, "--list"]
+                        elif mode == "noroot":
+                            os.chdir(start_abs)            # invoked from (a subdirectory of) the project
+                        elif mode == "relroot":
+                            os.chdir(top)
+                            argv = ["inv", "--search-root", start_rel, "--list"]
+                        else:
+                            open(prefix + "invoke.yaml", "w").write("tasks:\n  search_root: %s\n" % start_abs)
+                            p = Program(config_class=UserConf)
+                        p.create_config()
+                        p.parse_core(argv)
+                        p.load_collection()
+                        return p.config._project_path, p.config._project.get("marker")
+                    n += 1
+                    case = {"kind": kind, "start": start_rel, "mode": mode}
+                    try:
+                        path, marker = self._isolated(go)
+                        if path != os.path.join(d, "invoke.yaml") or marker != "right":
+                            fails.append({"case": case, "what": [path, marker]})
+                    except Exception as e:  # noqa
+                        fails.append({"case": case, "what": repr(e)})
         return {"name": "project-config-location", "evaluations": n, "failures": fails,
-                "note": "Program.load_collection -> Config._project_path is <dir of module | parent of package>/invoke.yaml"}
+                "note": "Program.load_collection -> Config._project_path is <dir of module | parent of package>/invoke.yaml, "
+                        "with --search-root (absolute / relative), without it from a subdirectory of the project, and "
+                        "with tasks.search_root coming from a user-level configuration file"}
+
+    def _load_sessions(self):
+        """several loads in ONE interpreter, each module importing a sibling"""
+        from invoke.loader import FilesystemLoader
+        fails, n = [], 0
+
+        def project(top, nm, style, sib, value):
+            d = os.path.join(top, nm)
+            os.makedirs(d)
+            if style == "mod":
+                open(os.path.join(d, sib + ".py"), "w").write("VALUE = %r\n" % value)
+                open(os.path.join(d, "tasks.py"), "w").write("import %s\nVALUE = %s.VALUE\n" % (sib, sib))
+            else:
+                os.makedirs(os.path.join(d, "tasks"))
+                open(os.path.join(d, "tasks", sib + ".py"), "w").write("VALUE = %r\n" % value)
+                open(os.path.join(d, "tasks", "__init__.py"), "w").write(
+                    "from . import %s\nVALUE = %s.VALUE\n" % (sib, sib))
+            return d
+
+        for style in ("mod", "pkg"):
+            for same_sibling_name in (False, True):
+                for reload_first in (False, True):
+                    top = self._fresh()
+                    a = project(top, "projA", style, "c20v_help", "A")
+                    b = project(top, "projB", style, "c20v_help" if same_sibling_name else "c20v_other", "B")
+
+                    def go():
+                        got = []
+                        order = [a, b] + ([a] if reload_first else [])
+                        for d in order:
+                            m, parent = FilesystemLoader(start=d).load("tasks")
+                            got.append([m.VALUE, parent])
+                        return got
+                    n += 1
+                    case = {"style": style, "same_sibling_name": same_sibling_name, "third_load_of_first": reload_first}
+                    want = [["A", a], ["B", b]] + ([["A", a]] if reload_first else [])
+                    try:
+                        got = self._isolated(go)
+                    except Exception as e:  # noqa
+                        fails.append({"case": case, "what": repr(e)})
+                        continue
+                    if got != want:
+                        f = {"case": case, "what": got}
+                        # F-C20d: a LATER load, in the same interpreter, of a same-named collection whose sibling
+                        # (submodule / neighbouring module) has the name of one an earlier load imported
+                        if same_sibling_name and [g[1] for g in got] == [w[1] for w in want] and got[0] == want[0]:
+                            f["finding"] = "F-C20d"
+                        fails.append(f)
+        return {"name": "load-sessions", "evaluations": n, "failures": fails,
+                "note": "two or three loads of same-named collections from different projects in one interpreter, "
+                        "each importing a sibling (module next to tasks.py / submodule of the tasks package)"}
 
 
 PROP = C20()
